@@ -16,7 +16,8 @@ ENV = dict(os.environ, GOFLAGS="-mod=mod", GOPROXY="off", GOSUMDB="off", GOTOOLC
 # extra properties whose checks are also run for a seed (besides the one in its name)
 ALSO = {"C01": ["C02"], "C01b": ["C02", "C08"], "C02": ["C01"], "C06": ["C01", "C02"], "C08": ["C01"], "C08b": ["C05"],
         "C10": ["C01", "C02"], "C17b": [], "C14b": [], "C03": ["C10"], "C09": ["C18"], "C04": ["C10"],
-        "C06b": ["C01", "C02"], "C06c": ["C01"], "C06d": ["C01"], "C06e": ["C01"], "C02b": ["C20"], "C14c": ["C02"]}
+        "C06b": ["C01", "C02"], "C06c": ["C01"], "C06d": ["C01"], "C06e": ["C01"], "C02b": ["C20"], "C14c": ["C02"],
+        "C18": ["C09", "C14"], "C10b": ["C01"], "C04b": ["C03"], "C16b": ["C01"], "C09c": ["C18", "C14"], "C14e": []}
 
 
 def sh(cmd, cwd=None, timeout=3600):
